@@ -644,6 +644,30 @@ Section Env.
   Qed.
 End Env.
 
+(* ---------------------------------------------------------------------- *)
+(* known findings: where content is NOT preserved                           *)
+(* ---------------------------------------------------------------------- *)
+Lemma uint32_store_refuted : exists v, h5_to_uint32 v <> v.
+Proof. exists (-20). vm_compute. discriminate. Qed.
+
+Lemma uint32_store_partial v : 0 <= v <= 4294967295 -> h5_to_uint32 v = v.
+Proof. unfold h5_to_uint32. lia. Qed.
+
+Lemma condense_total_refuted :
+  exists dsval feats ev, condense_crashes dsval feats ev = true.
+Proof. exists (fun _ => []), [7], []. reflexivity. Qed.
+
+Lemma condense_total_partial dsval feats ev :
+  (forall x, In x feats -> dsval x <> []) ->
+  condense_crashes dsval feats ev = false.
+Proof.
+  intros H. unfold condense_crashes.
+  destruct (existsb _ feats) eqn:E; [|reflexivity].
+  apply existsb_exists in E. destruct E as [x [Hx E]].
+  destruct (assoc x ev); [discriminate|].
+  specialize (H x Hx). destruct (dsval x); [congruence|discriminate].
+Qed.
+
 (* the section generalised this lemma over variables it does not mention *)
 Lemma condense_feature_set (fsc : Z -> bool) sa sb loaded basin anc g x :
   In x (condense_features fsc sa sb loaded basin anc g) <->
